@@ -21,6 +21,11 @@ def gen_scenario(rng, cfg):
         if k < 22:
             ops.append({"op": "launch", "bg": False, "n": rng.choice([1, 1, 2, 3]),
                         "codes": [rng.choice([0, 0, 1, 5]) for _ in range(3)], "helper": rng.chance(20)})
+            if ops[-1]["n"] >= 2 and rng.chance(10):
+                # fault: fork() fails for the first stage; the later stages still run, and the job table must be
+                # left without a trace of the line afterwards
+                ops[-1]["forkfail"] = True
+                ops[-1]["helper"] = False
         elif k < 36:
             ops.append({"op": "launch", "bg": True, "n": rng.choice([1, 1, 2, 3]),
                         "codes": [rng.choice([0, 0, 1, 5]) for _ in range(3)], "helper": rng.chance(20)})
@@ -237,7 +242,15 @@ class C07Runner:
             elif w[0] == "pipe?":
                 sim.shell_go()
             elif w[0] == "fork?":
-                sim.shell_go("go childpark" if self.sc.get("childpark") else "go")
+                if getattr(self, "fail_next_fork", False) and self.pending:
+                    self.fail_next_fork = False
+                    m = self.pending.pop(0)
+                    m.dead = True
+                    sim.fault("fork_fail_first_stage")
+                    sim.ev("fork() fails", m.name)
+                    sim.shell_go("fail 11")
+                else:
+                    sim.shell_go("go childpark" if self.sc.get("childpark") else "go")
             elif w[0] == "fork=":
                 self.child_forked(int(w[1]))
                 sim.shell_go()
@@ -376,6 +389,9 @@ class C07Runner:
             members = [Member("j%dm%d" % (o, i), op["codes"][i]) for i in range(op["n"])]
             job = Job(o, op["bg"], members)
             job.helper = bool(op.get("helper"))
+            if op.get("forkfail") and not op["bg"] and op["n"] >= 2 and not self.sc.get("childpark"):
+                job.faulted = True
+                self.fail_next_fork = True
             self.jobs.append(job)
             self.pending = list(members)
             self.launching = job
@@ -581,7 +597,7 @@ class C07Runner:
                             "Ctrl-Z and Ctrl-C cannot reach it" % (m.name, blocked, bad))
 
     def check_group(self, m, job, pgrp):
-        if getattr(job, "substitution", False) or getattr(job, "detached", False):
+        if getattr(job, "substitution", False) or getattr(job, "detached", False) or getattr(job, "faulted", False):
             return
         if pgrp != job.gid:
             where = "the shell's own group" if pgrp == self.shell.pgid else "group %d" % pgrp
@@ -597,7 +613,7 @@ class C07Runner:
         self.release_parked_children()
         if self.pending and not getattr(getattr(self, "launching", None), "substitution", False):
             raise Violation("stage_not_started", "the shell waits although %d processes of the line were never forked" % len(self.pending))
-        if job is not None and job.live() and not getattr(job, "substitution", False):
+        if job is not None and job.live() and not getattr(job, "substitution", False) and not getattr(job, "faulted", False):
             owner = sh.fg_pgrp()
             if owner != job.gid:
                 who = "the shell" if owner == sh.pgid else "group %d" % owner
@@ -659,7 +675,7 @@ class C07Runner:
 
     def ctrl(self, job, key, want, name):
         sim = self.sim
-        if job is None or getattr(job, "substitution", False):
+        if job is None or getattr(job, "substitution", False) or getattr(job, "faulted", False):
             return
         live = [m for m in job.live() if self.truth_state(m) not in ("Z", "X", "T")]
         if not live:
@@ -757,6 +773,8 @@ class C07Runner:
                 sim.probe("background_job_member_dies_while_another_is_in_front")
             return
         sig = op["sig"]
+        if sig == signal.SIGSTOP and getattr(job, "faulted", False):
+            return      # (which group the later stages of such a line end up in is not prescribed)
         if sig == signal.SIGSTOP and getattr(job, "detached", False):
             # a member that left the job's process group cannot be reached by the shell's killpg(SIGCONT) any more:
             # stopping it would only show that, not a defect of `bg`/`fg`
@@ -933,6 +951,11 @@ def explicit_cases():
         [{"op": "launch", "bg": True, "n": 2, "codes": [0, 0, 0]}, sig(1, SIGSTOP), sig(1, SIGCONT), {"op": "jobs"}, sig(0, SIGSTOP),
          {"op": "jobs"}, sig(1, SIGSTOP), {"op": "jobs"}, {"op": "bg", "job": 0, "bare": False}, {"op": "jobs"}],
     ]
+    sessions.append([{"op": "launch", "bg": False, "n": 2, "codes": [0, 0, 0], "forkfail": True}, {"op": "jobs"},
+                     {"op": "launch", "bg": True, "n": 1, "codes": [0, 0, 0]}, {"op": "jobs"}])
+    sessions.append([{"op": "launch", "bg": True, "n": 1, "codes": [0, 0, 0]},
+                     {"op": "launch", "bg": False, "n": 3, "codes": [0, 0, 0], "forkfail": True}, {"op": "jobs"},
+                     {"op": "launch", "bg": True, "n": 2, "codes": [0, 0, 0]}, {"op": "jobs"}])
     for ops in sessions:
         for handler in (False, True):
             out.append({"prop": "C07", "ops": [dict(o) for o in ops], "handler": handler, "childpark": False, "lines": [],
